@@ -940,7 +940,7 @@ Definition rep_text_ok (fr : sref) (r : str) : Prop :=
       match i_dt i with
       | Some b => (base (Some b) = true /\ comps_fix e leaf b r) \/
                   (b = unbs "varies" /\ vcomps_fix e leaf r)
-      | None => False
+      | None => vcomps_fix e leaf r       (* untyped leaf: like varies *)
       end
   | SSeqDt i =>
       match i_dt i with
@@ -995,21 +995,24 @@ Definition field_row_ok (row : srow) : Prop :=
     | _ => False
     end.
 
-Lemma field_rt_of_text fv i row fr r :
+Lemma field_rt_of_text_gen fv i row fr r :
+  is_msh12 (Some (name_idx sn i)) = false -> not_msh12 (name_idx sn i) ->
   nth_error srows (pred i) = Some row -> 1 <= i -> row_ref t row = Some fr -> field_row_ok row ->
   rep_text_ok fr r -> exists x, field_rt t e leaf sn sst fv i r x.
 Proof.
-  intros Hn Hi Hr [fr' [Hr' Hk]] Hok. rewrite Hr in Hr'. injection Hr' as <-.
+  intros M12 N12 Hn Hi Hr [fr' [Hr' Hk]] Hok. rewrite Hr in Hr'. injection Hr' as <-.
   destruct i as [|i]; [lia|]. cbn [pred] in Hn.
   destruct (rows_structure_ref_in t sn FIE srows sst i row fr Hsst Hn Hr) as [Hm Href].
   unfold field_rt. rewrite Hm, Href.
   assert (Hun : upper (name_idx sn (S i)) = name_idx sn (S i)) by now rewrite name_idx_upper, Hup.
-  pose proof (sn_is_msh12 sn H3 Hup Hmsh (S i)) as M12. pose proof (sn_not_msh12 sn H3 Hup Hmsh (S i)) as N12.
   destruct fr as [inf|inf| |]; try contradiction.
   - (* leaf field *)
-    cbn [rep_text_ok] in Hok. destruct (i_dt inf) as [b|] eqn:Ei; [|contradiction].
+    cbn [rep_text_ok] in Hok.
     pose proof (field_ctor_ref (name_idx sn (S i)) (SLeaf inf) _ fv Hun (leaf_structure t inf)) as Hc.
-    cbn [st_dt st_info] in Hc. rewrite Ei in Hc.
+    cbn [st_dt st_info] in Hc.
+    destruct (i_dt inf) as [b|] eqn:Ei.
+    2:{ eexists. split; [apply (parse_field_untyped t e leaf Hst _ _ _ fv _ _ Hc M12 eq_refl Hok)|].
+        split; [reflexivity|]. now apply enc_field_untyped. }
     destruct Hok as [[Hb Hcs]|[-> Hcs]].
     + eexists. split; [apply (parse_field_base t e leaf _ _ _ fv _ b _ Hc M12 Hb (base_not_varies t Hvar b Hb) Hcs)|].
       split; [reflexivity|]. apply enc_field_base; auto. exact (base_not_varies t Hvar b Hb).
@@ -1023,6 +1026,13 @@ Proof.
     destruct (parse_field_complex t e leaf r _ _ fv _ D rows st Hc M12 N12 (proj1 Hg) Hs (good_struct_resolved D rows Hg))
       as [x [Hx1 [Hx2 [Hx3 _]]]]; [now apply comps_ok_of_text|].
     exists x. auto.
+Qed.
+
+Lemma field_rt_of_text fv i row fr r :
+  nth_error srows (pred i) = Some row -> 1 <= i -> row_ref t row = Some fr -> field_row_ok row ->
+  rep_text_ok fr r -> exists x, field_rt t e leaf sn sst fv i r x.
+Proof.
+  apply field_rt_of_text_gen; [apply (sn_is_msh12 sn H3 Hup Hmsh)|apply (sn_not_msh12 sn H3 Hup Hmsh)].
 Qed.
 
 End OneSeg.
@@ -1232,6 +1242,59 @@ Proof.
     eexists s, _, (varies_comp e 1 x), (st_sub (unbs "ST") x).
     rewrite E. split; [exact Hp|]. split; [now rewrite Hch, Hcat|]. split; [reflexivity|]. split; [reflexivity|].
     split. { unfold var_field. cbn [f_children]. now rewrite Sc. }
+    split; [reflexivity|].
+    split. { unfold varies_comp. cbn [c_children]. now rewrite Ss. }
+    split; [reflexivity|exact He].
+Qed.
+
+(* ... and for a field whose table row has no datatype at all (v2.5.1 MSA-5, OBX-20..22) *)
+Theorem field_position_untyped sn srows i row inf x :
+  length sn = 3 -> upper sn = sn -> streqb sn (unbs "MSH") = false -> valid_z_segment_name sn = false ->
+  slookup sn (t_segments t) = Some (SSeqIn false srows None) ->
+  rows_contiguous sn FIE 1 srows = true ->
+  (forall row, In row srows -> field_row_ok row) ->
+  1 <= i -> nth_error srows (pred i) = Some row ->
+  row_ref t row = Some (SLeaf inf) -> i_dt inf = None ->
+  is_blank x = false -> delim_free e x -> leaf (Some (unbs "ST")) x = Ok x ->
+  let text := sn ++ repeat (fsep e) i ++ x in
+  exists s f c sb,
+    parse_segment t TOLERANT e leaf text None = Ok s /\
+    s_children s = [f] /\ f_name f = Some (name_idx sn i) /\ f_dt f = None /\
+    f_children f = [c] /\ c_name c = Some (name_idx VARIES 1) /\
+    c_children c = [sb] /\ sc_value sb = x /\
+    enc_segment t e s false = Ok text.
+Proof.
+  intros H3 Hup Hmsh Hz Hl Hc Hrows Hi Hn Hr Hdt Hx Hd Hlf text.
+  destruct i as [|k]; [lia|]. cbn [pred] in Hn.
+  assert (E : text = bjoin (fsep e) (sn :: repeat [] k ++ [x])) by (subst text; now rewrite bjoin_position).
+  assert (Hlen : length (repeat (@nil byte) k ++ [x]) <= length srows).
+  { rewrite app_length, repeat_length. cbn [length].
+    assert (k < length srows) by (apply nth_error_Some; congruence). lia. }
+  destruct (leaf_splits e x Hd) as [Sr [Sc Ss]]. pose proof Hd as [Hf0 [Hc0 [Hr0 [Hs0 Hcr0]]]].
+  destruct (seg_table_roundtrip sn srows (repeat [] k ++ [x]) H3 Hup Hmsh Hz Hl Hc Hrows)
+    as [s [gs [Hp [Hch [Hg He]]]]]; auto.
+  - apply no_trail_last, not_blank_ne, Hx.
+  - intros j f Hjf. rewrite indexed_repeat_app in Hjf. apply in_app_or in Hjf. destruct Hjf as [Hjf|[Hjf|[]]].
+    + apply in_indexed_repeat in Hjf. subst f. repeat split; auto.
+    + injection Hjf as <- <-. split; [exact Hf0|]. split; [exact Hcr0|]. right. split; [exact Hx|].
+      exists row, (SLeaf inf). split; [exact Hn|]. split; [exact Hr|]. rewrite Sr. constructor; [|constructor].
+      cbn [rep_text_ok]. rewrite Hdt. now apply vcomps_fix_leaf.
+  - destruct (Forall2_position (fun p g => fields_of srows sn (fst p) (snd p) g) k x gs) as [g [Hgx Hcat]]; auto.
+    { intros j g [[_ ->]|[Hbl _]]; [reflexivity|discriminate]. }
+    cbn [fst snd] in Hgx. destruct Hgx as [[-> _]|[_ [row' [fr [fv [Hn' [Hr' HF]]]]]]]; [discriminate|].
+    cbn [pred] in Hn'. rewrite Hn in Hn'. injection Hn' as <-. rewrite Hr in Hr'. injection Hr' as <-.
+    rewrite Sr in HF.
+    destruct g as [|f [|f2 g']]; [inversion HF| |inversion HF as [|? ? ? ? _ HF']; inversion HF'].
+    inversion HF as [|? ? ? ? [Hpf [Hnm Hef]] _]. clear HF.
+    assert (Hun : upper (name_idx sn (S k)) = name_idx sn (S k)) by now rewrite name_idx_upper, Hup.
+    pose proof (field_ctor_ref (name_idx sn (S k)) (SLeaf inf) _ fv Hun (leaf_structure t inf)) as Hct.
+    cbn [st_dt st_info] in Hct. rewrite Hdt in Hct.
+    rewrite (parse_field_untyped t e leaf Hst _ _ _ fv _ _ Hct (sn_is_msh12 sn H3 Hup Hmsh (S k)) eq_refl) in Hpf.
+    2:{ now apply vcomps_fix_leaf. }
+    injection Hpf as <-.
+    eexists s, _, (varies_comp e 1 x), (st_sub (unbs "ST") x).
+    rewrite E. split; [exact Hp|]. split; [now rewrite Hch, Hcat|]. split; [reflexivity|]. split; [reflexivity|].
+    split. { unfold untyped_field. cbn [f_children]. now rewrite Sc. }
     split; [reflexivity|].
     split. { unfold varies_comp. cbn [c_children]. now rewrite Ss. }
     split; [reflexivity|exact He].
@@ -1646,7 +1709,7 @@ Definition wt_rep (fr : sref) (vr : vrep) : Prop :=
       match i_dt i with
       | Some b => (base (Some b) = true /\ Forall (Forall (leaf_at (Some b))) vr) \/
                   (b = unbs "varies" /\ Forall (Forall (leaf_at (Some (unbs "ST")))) vr)
-      | None => False
+      | None => Forall (Forall (leaf_at (Some (unbs "ST")))) vr
       end
   | SSeqDt i =>
       match i_dt i with
@@ -1717,7 +1780,7 @@ Lemma rep_text_of_value fr vr : canon_rep e PT vr -> wt_rep fr vr -> rep_text_ok
 Proof.
   intros Hr Hw. unfold wt_rep in Hw. unfold rep_text_ok.
   destruct fr as [i|i|? ? ?|]; try contradiction.
-  - destruct (i_dt i) as [b|]; [|contradiction]. destruct Hw as [[Hb Hl]|[-> Hl]].
+  - destruct (i_dt i) as [b|]; [|exact (comps_fix_of_leaves (unbs "ST") vr Hr Hw)]. destruct Hw as [[Hb Hl]|[-> Hl]].
     + left. split; [exact Hb|now apply comps_fix_of_leaves].
     + right. split; [reflexivity|]. now apply comps_fix_of_leaves.
   - destruct (i_dt i) as [D|]; [|contradiction]. destruct (slookup D (t_structs t)) as [rows|]; [|contradiction].
@@ -1847,7 +1910,7 @@ Definition rep_text_okb (fr : sref) (r : str) : bool :=
   | SLeaf i =>
       match i_dt i with
       | Some b => (base (Some b) && comps_fixb b r) || (streqb b (unbs "varies") && comps_fixb (unbs "ST") r)
-      | None => false
+      | None => comps_fixb (unbs "ST") r
       end
   | SSeqDt i =>
       match i_dt i with
@@ -1859,7 +1922,7 @@ Definition rep_text_okb (fr : sref) (r : str) : bool :=
 Lemma rep_text_okb_sound fr r : rep_text_okb fr r = true -> rep_text_ok fr r.
 Proof.
   unfold rep_text_okb, rep_text_ok. destruct fr as [i|i|c cs oi|]; try discriminate.
-  - destruct (i_dt i) as [b|]; [|discriminate]. intros H. apply orb_prop in H.
+  - destruct (i_dt i) as [b|]; [|intros H; apply comps_fixb_sound in H; exact H]. intros H. apply orb_prop in H.
     destruct H as [H|H]; apply andb_prop in H; destruct H as [H1 H2].
     + left. split; [exact H1|now apply comps_fixb_sound].
     + right. split; [now apply streqb_eq|]. apply comps_fixb_sound in H2. exact H2.
@@ -1939,7 +2002,7 @@ Definition wt_repb (fr : sref) (vr : vrep) : bool :=
       match i_dt i with
       | Some b => (base (Some b) && forallb (forallb (leaf_atb (Some b))) vr) ||
                   (streqb b (unbs "varies") && forallb (forallb (leaf_atb (Some (unbs "ST")))) vr)
-      | None => false
+      | None => forallb (forallb (leaf_atb (Some (unbs "ST")))) vr
       end
   | SSeqDt i =>
       match i_dt i with
@@ -1958,7 +2021,9 @@ Definition wt_repb (fr : sref) (vr : vrep) : bool :=
 Lemma wt_repb_sound fr vr : wt_repb fr vr = true -> wt_rep fr vr.
 Proof.
   unfold wt_repb, wt_rep. destruct fr as [i|i|? ? ?|]; try discriminate.
-  - destruct (i_dt i) as [b|]; [|discriminate]. intros H. apply orb_prop in H.
+  - destruct (i_dt i) as [b|].
+    2:{ apply forallb_Forall. intros c. apply forallb_Forall. intros s0. apply leaf_atb_sound. }
+    intros H. apply orb_prop in H.
     destruct H as [H|H]; apply andb_prop in H; destruct H as [H1 H2].
     + left. split; [exact H1|]. revert H2. apply forallb_Forall. intros c. apply forallb_Forall. intros s0. apply leaf_atb_sound.
     + right. split; [now apply streqb_eq|]. revert H2. apply forallb_Forall. intros c. apply forallb_Forall. intros s0. apply leaf_atb_sound.
